@@ -21,6 +21,7 @@ import (
 	"strconv"
 	"strings"
 	"testing"
+	"time"
 
 	"github.com/hashicorp/raft"
 	"github.com/rqlite/rqlite/v10/db"
@@ -223,7 +224,7 @@ func (e *c09Env) observe() {
 		n := e.nat(m.ID)
 		res := e.openRestore(m.ID)
 		e.emit(fmt.Sprintf("open %d", n), res)
-		if want, ok := e.cover[n]; ok && res != c09Range(1, want) {
+		if want, ok := e.cover[n]; ok && want >= 0 && res != c09Range(1, want) {
 			e.rep.Fail("listed-snapshot-does-not-resolve", fmt.Sprintf("history %v: snapshot %s restores to %q, want rows 1..%d", e.hist, m.ID, res, want), map[string]interface{}{"history": e.hist})
 		}
 	}
@@ -517,6 +518,81 @@ func TestVerifC09(t *testing.T) {
 		if si < 3 {
 			rep.Sample(map[string]interface{}{"history": e.hist})
 		}
+		allOps = append(allOps, e.ops)
+		allImpl = append(allImpl, e.impl)
+	}
+	// --- overlapping sinks (OUTSIDE the admissible sequences of catalog_inv; the Lean witness
+	// C09.overlapping_sinks_witness): a local sink is created, a snapshot "from the leader" with a
+	// higher index is created, written and installed into the empty store, then the local sink gets
+	// an incremental header and is closed. Model and real store must agree on what that leaves: an
+	// incremental listed below the only full snapshot, which does not open.
+	{
+		e := &c09Env{t: t, art: art, dir: filepath.Join(t.TempDir(), "snaps"), names: map[string]int{}, cover: map[int]int{}, rep: rep}
+		e.emit("reset", "ok")
+		e.open()
+		lI, err := e.str.Create(1, 50, 1, raft.Configuration{}, 1, nil)
+		if err != nil {
+			t.Fatal(err)
+		}
+		local := lI.(*Sink)
+		local.fatalFn = nil
+		e.names[local.ID()] = 5
+		e.ops, e.impl = append(e.ops, "create 1 5 50 1"), append(e.impl, "ok") // (not admissible on purpose: no 'admissible' query)
+		time.Sleep(3 * time.Millisecond)
+		iI, err := e.str.Create(1, 90, 1, raft.Configuration{}, 1, nil)
+		if err != nil {
+			t.Fatal(err)
+		}
+		inst := iI.(*Sink)
+		inst.fatalFn = nil
+		e.names[inst.ID()] = 9
+		e.ops, e.impl = append(e.ops, "create 2 9 90 1"), append(e.impl, "ok")
+		str, err := NewSnapshotStreamer(art.dbPath(7))
+		if err != nil {
+			t.Fatal(err)
+		}
+		if err := str.Open(); err != nil {
+			t.Fatal(err)
+		}
+		_, werr := io.Copy(inst, str)
+		str.Close()
+		res := "ok"
+		if werr != nil {
+			res = "err " + c09Err(werr.Error())
+		}
+		e.ops, e.impl = append(e.ops, "wfull 2 "+c09Range(1, 7)+" - ok"), append(e.impl, res)
+		res = "ok"
+		if cerr := inst.Close(); cerr != nil {
+			res = "err " + c09Err(cerr.Error())
+		}
+		e.ops, e.impl = append(e.ops, "close 2"), append(e.impl, res)
+		walDir := filepath.Join(t.TempDir(), "wal-staging")
+		os.MkdirAll(walDir, 0o755)
+		wp := filepath.Join(walDir, fmt.Sprintf("%024d-%06d.wal", 3, 1))
+		wb, _ := os.ReadFile(art.segPath(3))
+		os.WriteFile(wp, wb, 0o644)
+		c09WriteCRC(wp)
+		ps, err := NewSnapshotPathStreamer(walDir)
+		if err != nil {
+			t.Fatal(err)
+		}
+		_, werr = io.Copy(local, ps)
+		res = "ok"
+		if werr != nil {
+			res = "err " + c09Err(werr.Error())
+		}
+		e.ops, e.impl = append(e.ops, "winc 1 3"), append(e.impl, res)
+		res = "ok"
+		if cerr := local.Close(); cerr != nil {
+			res = "err " + c09Err(cerr.Error())
+		}
+		e.ops, e.impl = append(e.ops, "close 1"), append(e.impl, res)
+		e.hist = []string{"create(index=50)", "create(index=90)", "write-full(ok)@90", "close@90", "write-incremental@50", "close@50"}
+		e.cover[9], e.cover[5] = 7, -1 // both completed their Close; 5 is not expected to resolve
+		e.observe()
+		e.str.Close()
+		rep.Case(strings.Join(e.ops, ";"), true)
+		rep.Count("overlapping-sinks-witness")
 		allOps = append(allOps, e.ops)
 		allImpl = append(allImpl, e.impl)
 	}
